@@ -26,6 +26,14 @@ Theorem C15_dial_address_from_config : forall cfg k lport k' h p,
              ((exists pre post, cfg = pre ++ h ++ post) /\ (exists pre, cfg = pre ++ p))).
 Proof. exact dial_host_from_config. Qed.
 
+(* one director shared by several services and listening ports: the target dialled for a
+   connection follows from the configuration and that connection's own local address,
+   whatever connections came before or come after (so with a port-less host every listening
+   port reaches the backend port of its own) *)
+Theorem C15_dial_shared_director_independent : forall cfg pre c post,
+  nth (length pre) (dial_seq cfg (pre ++ c :: post)) DError = dial_model cfg (fst c) (snd c).
+Proof. exact dial_seq_independent. Qed.
+
 Theorem C15_dial_unsupported_local_address : forall cfg lport, dial_model cfg LOther lport = DUnsupported.
 Proof. exact dial_unsupported. Qed.
 
@@ -309,3 +317,4 @@ Print Assumptions C15_datagram_read_whole.
 Print Assumptions C15_http_replies_survive_failing_next_request.
 Print Assumptions C15_http_relayed_stays_relayed.
 Print Assumptions C15_http_backend_closed_ends_relay.
+Print Assumptions C15_dial_shared_director_independent.
